@@ -236,3 +236,15 @@ Print Assumptions C13_internal_type_covers.
 Print Assumptions C13_error_states_bound.
 Print Assumptions C13_missing_type_rejected.
 Print Assumptions C13_missing_type_rejected_instances.
+
+(* ---- whole pipeline: a definition the whole generator accepts is [accepted] in the sense used above (after name
+   normalisation), so C13_untagged_partial / C13_partial apply to it ---- *)
+From DD Require Pipeline PipelineProofs Names.
+Theorem C13_whole_pipeline_accept : forall fuel dev_name d0,
+  Pipeline.pipeline_result fuel dev_name d0 = "ok"%string -> accepted true fuel dev_name (Names.names_normalized d0).
+Proof.
+  intros fuel dev_name d0 H. apply PipelineProofs.pipeline_result_ok_iff in H.
+  exact (PipelineProofs.ab_addr _ _ _ (PipelineProofs.pipeline_accept_inv _ _ _ H)).
+Qed.
+
+Print Assumptions C13_whole_pipeline_accept.
